@@ -6,7 +6,7 @@
   in keys; absent pair = 0 : 0; `IsCW v w` = `w` is a candidate and `d w o > d o w` for every other
   candidate `o`.
 -/
-import VotelibProofs.Lemmas.Kemeny
+import VotelibProofs.Lemmas.RankedPairs
 import VotelibModel.CondorcetRanked
 namespace VL.C05
 open VL VL.Condorcet
@@ -108,6 +108,14 @@ theorem cw_tideman {p : Profile} (hwf : WF (rankedToCondorcet p)) {w : Cand} (hw
   rw [htier]
   simp only
   rw [if_pos (List.contains_iff_mem.2 (candidates_rankedToCondorcet_sub p hw.1))]
+
+/-- **Ranked pairs, Condorcet winner (partial).**  Full statement `cw_rankedpairs : rankedPairs sc v 1 = .ok [cand w]`
+    is false of the current code (`cw_rankedpairs_witness`: `_build_ranking` refuses when candidates further
+    down are not ordered).  Proved, for all three win scorers: whenever ranked pairs answers for one seat, it
+    answers exactly `[w]` — every pair `(w, x)` sorts before `(x, w)` and is locked, no pair into `w` is ever
+    locked, so `w` is the only possible first source. -/
+theorem cw_rankedpairs_partial {v : Pairwise} (hwf : WF v) {w : Cand} (hw : IsCW v w) (sc : Scorer)
+    {r : List Slot} (h : rankedPairs sc v 1 = .ok r) : r = [Slot.cand w] := rankedPairs_cw hwf hw sc h
 
 /-- **Kemeny-Young follows its defining computation**: whenever it answers, the places are the head of the
     order of all candidates whose score (number of voter preferences the order satisfies) strictly exceeds
@@ -211,6 +219,43 @@ theorem no_candidate_dropped_schulze (v : Pairwise) (n : Nat)
   · have : ∀ d : Votes, d.length = (keys d).length := fun d => by simp [keys]
     rw [this, hk]; exact hn
   · rw [hk]; exact hc
+
+/-! ### defining computations -/
+
+/-- **Copeland ranks by wins minus losses.**  The value handed to `get_n_best` for candidate `c` is the
+    number of candidates `c` beats minus the number that beat `c` (absent pair = 0:0); boundary ties are
+    then reported by `get_n_best` (C09). -/
+theorem copeland_defining {v : Pairwise} (hwf : WF v) (n : Nat) :
+    copeland false v n = getNBest ((candidates v).map (fun c =>
+      (c, (((candidates v).filter (fun o => decide (Beats v c o))).length : Rat)
+          - (((candidates v).filter (fun o => decide (Beats v o c))).length : Rat)))) n := by
+  unfold copeland
+  simp only [Bool.false_and, Bool.false_eq_true, if_false, seededScores]
+  congr 1
+  apply List.map_congr_left
+  intro c _
+  rw [getD_copelandScoresRaw, winsBy_eq_filter hwf, lossesOf_eq_filter hwf]
+
+/-- **Minimax's worst counter-score** of `c` is the maximum of the scores of the pairs of the dictionary in
+    which `c` is the lower candidate, and `-inf` (`none`) exactly when there is no such pair.  (The maximum
+    runs over the pairs PRESENT in the dictionary — on sparse dictionaries this is not the worst defeat
+    over all opponents, see `minimax_never_loser_witness`.) -/
+theorem minimax_worst_counterscore (sc : Scorer) (v : Pairwise) (c : Cand) :
+    match oget (maxCounterscore sc v) c with
+    | none => defeatsOf sc v c = []
+    | some s => s ∈ defeatsOf sc v c ∧ ∀ t ∈ defeatsOf sc v c, t ≤ s := by
+  rw [oget_maxCounterscore]
+  cases h : (defeatsOf sc v c).foldl omax none with
+  | none => exact omaxFold_none _ h
+  | some s =>
+    refine ⟨?_, fun t ht => ?_⟩
+    · rcases omaxFold_mem _ _ h with h1 | h1
+      · simp at h1
+      · exact h1
+    · obtain ⟨s', hs', hle⟩ := omaxFold_ge (defeatsOf sc v c) none ht
+      rw [h] at hs'
+      simp only [Option.some.injEq] at hs'
+      rw [hs']; exact hle
 
 /-! ### where the current code does NOT meet the property (concrete witnesses, open findings) -/
 
